@@ -288,6 +288,15 @@ package configmigrate
 //@   modifies nothing
 //@   ensures (err == nil) == (current <= target && target <= 29)
 
+// Every step writes into the top-level map, so it must exist when the steps run: a document that is a bare YAML null
+// ("~", "null", "---" with nothing after it) decodes to a nil map.
+//@ func (m *Migrator) upgradeConfigSchema(current uint, target uint, diskConf yobj) (err error)
+//@   property C13
+//@   requires top-level-map-exists: diskConf != nil
+//@   requires current <= target && target <= 29
+//@   callsite dyncall(dc) requires top-level-map-exists: dc != nil
+//@   modifies *
+
 //@ func (m *Migrator) Migrate(body []byte, target uint) (newBody []byte, upgraded bool, err error)
 //@   property C13
 //@   modifies *
